@@ -352,6 +352,29 @@ def cfg_case(draw):
     return case
 
 
+@st.composite
+def cfg_dense_case(draw):
+    """Configurations whose descent is long: 3-6 crosses of 3-4 parents from 2-4 chosen individuals with very uneven
+    integer / real contributions, re-sampled several times (each sampling scans the exchanges in another random order)."""
+    cls = draw(st.sampled_from(["integer", "integer", "real"]))
+    ntaxa = draw(st.integers(2, 5))
+    ncross = draw(st.integers(3, 6))
+    nparent = draw(st.integers(3, 4))
+    nch = draw(st.integers(2, min(4, ntaxa)))
+    chosen = list(draw(st.permutations(list(range(ntaxa)))))[:nch]
+    if cls == "integer":
+        decn = [0] * ntaxa
+        for i in chosen:
+            decn[i] = draw(st.sampled_from([1, 1, 2, 3, 5, 8]))
+    else:
+        decn = [0.0] * ntaxa
+        for i in chosen:
+            decn[i] = draw(st.sampled_from([1.0, 1.0, 2.0, 0.5, 0.25, 3.0, 5.0, 8.0]))
+    return {"cls": cls, "ntaxa": ntaxa, "ncross": ncross, "nparent": nparent, "nmating": 1, "nprogeny": draw(st.integers(1, 3)),
+            "rng": {"type": draw(st.sampled_from(["RandomState", "Generator"])), "seed": draw(st.integers(0, 2 ** 31 - 1))},
+            "resample": draw(st.integers(2, 5)), "decn": decn, "bool_dtype": False}
+
+
 def _decn_array(enc, decn, bool_dtype=False):
     if enc == "real":
         return numpy.array(decn, dtype="float64")
@@ -1330,6 +1353,10 @@ SUBCHECKS = [
                   ">= 2 chosen options",
              required_labels=("more_slots_than_chosen", "fewer_slots_than_chosen", "selfing_forced", "table_has_unavoidable_selfing",
                               "cls=subset", "cls=real", "cls=integer", "cls=binary", "cls=submate", "cls=realmate", "cls=intmate", "cls=binmate")),
+    SubCheck("cfg_dense", check_cfg, cfg_dense_case(), quick=500, thorough=4000, shards_quick=4,
+             rule="integer / real selection configurations with 3-6 crosses of 3-4 parents from 2-4 individuals with very uneven "
+                  "contributions, each sampled 3-6 times; same clauses as cfg (tiling law, local optimum of the outcross exchange "
+                  "neighbourhood); non-trivial = at least two slots and two chosen individuals"),
     SubCheck("select_trunc", check_select_trunc, trunc_case(), quick=150, thorough=2000, shards_quick=4,
              rule="generated population (3-17 taxa, non-sorted labels, integer (tied) or float values) x (EBV|GEBV subset selection, "
                   "sorting optimiser) x ncross 1-4 x nparent 1-3 x latent combination x obj_wt sign x unscale x a permutation of the "
